@@ -44,7 +44,9 @@ LEVEL = 'model_checking'
 TECHNIQUE = ('explicit-state exploration of the configuration graph of 16 (+1 in the thorough tier) catalog structures on the real '
              'Catalog/Controller/CentralController objects: every configuration x every operator x step alphabet '
              'x every answer of the random seam, compared step by step with a plain-Python reference model; every '
-             'configuration evaluated through the engine against the formula written out by hand')
+             'configuration evaluated through the engine against the formula written out by hand; every history of '
+             '(way of obtaining a Configuration object) x 1..2 (3) assignments of its selections property, every observer '
+             'of the object against the reference model of the last assignment')
 RULE = ('one case per (structure, configuration, listing order) identifier check, per (structure, configuration, '
         'entry point, parameter point) evaluation against the hand-written formula, per visited element of an '
         'iteration, and per operator application (structure, hidden state, argument configuration, operator, step, '
@@ -60,6 +62,8 @@ ASSUMPTIONS = [
     '(choices / sample / choice / randint / randrange / shuffle are owned and enumerated; any other use is a harness error)',
     'the engine (cythonbiogeme) is trusted to evaluate a plain formula; values are additionally compared with stdlib math '
     '(rel 1e-10) on a 4-row table at two parameter points',
+    'a Configuration object changes only through its public `selections` property (valid, complete assignments); in-place '
+    'edits of the returned list and the state left behind by a refused (duplicate controller) assignment are outside the statement',
     'structures are bounded: <= 3 controllers, <= 4 selections per controller, <= 12 configurations per structure (24 in the thorough tier)',
 ]
 ANCHOR_FILES = ['src/biogeme/catalog.py', 'src/biogeme/controller.py', 'src/biogeme/configuration.py',
@@ -1840,7 +1844,7 @@ def _confobj(task, st, space, rec):
                             visit(pair, [ids[i], ids[j]], (kind, ai, pi, prefix, i, j),
                                   f'the two objects of [{text}] for {ids[i]!r} and {ids[j]!r}', pattern)
                 # every operator applied to such an object
-                if ai in (0, n - 1) and pi == reduced[-1]:
+                if ai in (0, n - 1) and pi == (0 if kind in ('empty', 'current', 'op') else reduced[-1]):
                     for bi, obj in enumerate(objs):
                         for opname in opnames:
                             desc = space.op_desc(opname)
